@@ -563,6 +563,8 @@ DIFF_BASE_CASE = {"C04": 1 | 2 | 4 | 64, "C05": 16 | 32, "C17": 8}
 WPT_BASE_CASE = ("C01",)
 # native setter sweep (every corpus URL x 10 setters x ~200 values): the only coverage of the host setters / set_href / ada::url setters
 SETTER_BASE_CASE = ("C03", "C19")
+# URLPattern top level on the repository's WPT corpus, incl. shortcut-vs-regexp differential through the ADA_URL_ADA_VERIF hook
+URLPATTERN_BASE_CASE = ("C14", "C15")
 # url_search_params::sort beyond the 16-element bound of the solver obligation (libstdc++ switches algorithm there)
 SORT_BASE_CASE = ("C12",)
 # the same sweep under limits around the sizes involved (C09: setters under a limit)
